@@ -22,7 +22,8 @@ EXPLANATION = (
     "consuming call (or receives as a parameter) is handed on - to a green constructor, a container, another parser "
     "routine, a skip_taken_node* helper or the caller - on every feasible path to a return (flow-sensitive search "
     "with the wrapper-variant, tuple-flag and is_empty facts of the parser's own idioms); (R10.8) a helper that "
-    "re-roots a child of an already built green node carries every sibling of that child into its result. That the parser's choice of where trivia is attached preserves "
+    "re-roots a child of an already built green node carries every sibling of that child into its result; (R10.9) no "
+    "such green is handed on twice along one path. That the parser's choice of where trivia is attached preserves "
     "order in every recovery scenario beyond these APIs is not decided.")
 ASSUMPTIONS = ["TextSpan::take / TextOffset::take_from return exactly the addressed slice of the input",
                "Vec::extend / push append at the end (order preserving)"]
@@ -322,7 +323,7 @@ def _handed_on(ctx, F):
     from . import greenflow as G
     ex = _load_drop_exceptions()
     used_ex = set()
-    n_orig = n_param = n_fns = 0
+    n_orig = n_param = n_fns = n_single = 0
     helpers = set()
     for p, f in sorted(F.fns.items()):
         if not f.body or f.crate != "cairo_lang_parser":
@@ -349,6 +350,22 @@ def _handed_on(ctx, F):
             seen_keys[base] += 1
             if seen_keys[base] > 1:
                 base += "#%d" % seen_keys[base]
+            # R10.9: ... and is not handed on twice along one path
+            try:
+                dup = G.double_handoffs(f, o)
+            except RuntimeError as e:
+                dup = {"state-limit": []}
+            for cls, path in sorted(dup.items()):
+                key = "%s|twice:%s" % (base, cls)
+                if key in ex:
+                    used_ex.add(key)
+                    ctx.ob("R10.9", key, True, "handed on twice, accepted: %s" % ex[key], f.where(o.line()))
+                    continue
+                ctx.ob("R10.9", key, False,
+                       "the green obtained at line %s is handed on twice along one path (%s; blocks %s): the text of the tokens it spans "
+                       "would occur twice in the tree" % (o.line(), cls, "->".join("bb%s" % b for b in path[:18])), f.where(o.line()))
+            if not dup:
+                n_single += 1
             if not found:
                 ctx.ob("R10.7", base, True, "handed on along every path to a return", f.where(o.line()))
                 continue
@@ -365,6 +382,7 @@ def _handed_on(ctx, F):
         ctx.ob("R10.7", "stale-exception:" + k, False, "exception row matches no dropped path any more (remove it)", "tables/c10_drop_exceptions.tsv")
     ctx.floor("token-consuming calls returning a green (origins)", n_orig, 550)
     ctx.floor("green parameters of parser routines", n_param, 35)
+    ctx.ob("R10.9", "handed-on-at-most-once", True, "%d of %d consumed greens / green parameters are handed on at most once along every path" % (n_single, n_orig + n_param), "")
     ctx.notes.append("R10.7 analysed %d origins and %d parameters in %d functions of cairo_lang_parser" % (n_orig, n_param, n_fns))
     ctx._c10_helpers = helpers
 
